@@ -145,8 +145,18 @@ CLASS = {'FNoTour': 'tour-not-rebuildable', 'FInfeasible': 'tour-infeasible', 'F
          'FUnreachable': 'unreachable-leg', 'FCapacityDim': 'capacity-exceeded-in-extra-dimension',
          'FOrder': 'task-order-violated', 'FBreakPlace': 'break-not-at-a-place-of-a-break-of-the-shift',
          'FRequiredBreakMissing': 'required-break-missing', 'FReservedTime': 'reserved-time-of-required-break-used',
+         'FClusterWindow': 'service-starts-outside-the-time-windows', 'FClusterThreshold': 'cluster-member-beyond-threshold',
          'FRelVehicle': 'relation-job-on-another-vehicle-shift-or-not-served', 'FRelOrder': 'relation-order-broken',
          'FRelContiguous': 'strict-relation-not-contiguous', 'FRelAnchor': 'strict-relation-not-anchored'}
+
+
+# classes of the rules evaluated on a tour WITH a clustered stop (ValidX.feasible_viol_cl)
+CLUSTER_CLASS = {'FCapacity': 'clustered-tour:capacity-exceeded', 'FCapacityDim': 'clustered-tour:capacity-exceeded-in-extra-dimension',
+                 'FClusterWindow': 'clustered-tour:service-starts-outside-the-time-windows', 'FClusterThreshold': 'clustered-tour:member-beyond-threshold',
+                 'FMaxDistance': 'clustered-tour:max-distance-exceeded', 'FTourSize': 'clustered-tour:tour-size-exceeded',
+                 'FMaxDuration': 'clustered-tour:max-duration-exceeded', 'FNoTour': 'clustered-tour:tour-not-rebuildable',
+                 'FInfeasible': 'clustered-tour:arrival-after-shift-end', 'FOrder': 'clustered-tour:task-order-violated',
+                 'FSkills': 'clustered-tour:skills-violated'}
 
 
 def oracle(c, impl):
@@ -220,6 +230,9 @@ def oracle_model(c, impl, model):
             # a tour without any job (root cause shared with C02-F1): every rule evaluated on it is moot
             vt = e2e.vehicle_type_of(c, tour)
             cls = 'empty-tour-max-duration-vehicle' if vt is not None and (vt.get('limits') or {}).get('maxDuration') is not None else 'empty-tour'
+        elif tour is not None and e2e.tour_has_cluster(tour) and name in CLUSTER_CLASS:
+            # findings C01-F11 .. F13: a tour with a clustered stop (vicinity clustering)
+            cls = CLUSTER_CLASS[name]
         elif name == 'FRequiredBreakMissing' and tour is not None:
             # findings C01-F6 (moved break not written) / C01-F7 (break inside the last activity of an open tour not written)
             cls = e2e.rb_missing_class(c, tour)
